@@ -113,9 +113,12 @@ static size_t stream_compress(ZSTD_CCtx* c, size_t n, size_t chunk, int flushEve
 }
 /* compress op on an existing context; on failure: reset session, retry with memory available, must round-trip */
 typedef size_t (*op_fn)(ZSTD_CCtx*, void*);
+static int g_abandonMode, g_abandoned;   /* abandon=1: after the first failed operation the scenario stops using the object and frees it at once (no reset, no retry) */
 static int cctx_op_with_recovery(ZSTD_CCtx* c, op_fn op, void* arg, size_t n, const void* dict, size_t dlen, const char* what)
 {
+    if (g_abandoned) return ST_FAILED;
     size_t r = op(c, arg);
+    if (ZSTD_isError(r) && g_abandonMode) { g_abandoned = 1; return ST_FAILED; }
     if (!ZSTD_isError(r)) {
         if (!rt(g_dst, r, n, dict, dlen)) v_viol("wrong-output-after-success", "scenario=%s op=%s: compression reported success (alloc failures injected: %ld) but frame does not round-trip", g_scen, what, fa_failed + w_failed);
         return ST_OK;
@@ -188,6 +191,24 @@ static int sc_cctx_mt(void)
     ZSTD_CCtx_setParameter(c, ZSTD_c_jobSize, 1); ZSTD_CCtx_setParameter(c, ZSTD_c_checksumFlag, 1);
     st |= cctx_op_with_recovery(c, op_stream, &a, a.n, NULL, 0, "mt-stream");
     st |= cctx_op_with_recovery(c, op_compress2, &n, n, NULL, 0, "mt-compress2");
+    ZSTD_freeCCtx(c); return st;
+}
+static int sc_cctx_mt_sizes(void)
+{   /* one MT context, frames whose jobs need buffers of different size classes (pooled buffers are dropped and re-allocated); mostly single-job frames,
+     * so that which allocation fails does not depend on the schedule */
+    ZSTD_CCtx* c = ZSTD_createCCtx_advanced(g_cmem); if (!c) return ST_FAILED;
+    int st = ST_OK; size_t n = 600000; size_t n2 = 1100000; stream_arg a = { 600000, 200000, 0 };
+    if (ZSTD_isError(ZSTD_CCtx_setParameter(c, ZSTD_c_nbWorkers, 2))) { ZSTD_freeCCtx(c); return ST_FAILED; }
+    ZSTD_CCtx_setParameter(c, ZSTD_c_jobSize, 1 << 20);
+    st |= cctx_op_with_recovery(c, op_compress2, &n, n, NULL, 0, "mt-job1M");
+    ZSTD_CCtx_setParameter(c, ZSTD_c_jobSize, 16 << 20);
+    st |= cctx_op_with_recovery(c, op_compress2, &n, n, NULL, 0, "mt-job16M");
+    ZSTD_CCtx_setParameter(c, ZSTD_c_jobSize, 1 << 20); ZSTD_CCtx_setParameter(c, ZSTD_c_compressionLevel, 6);
+    st |= cctx_op_with_recovery(c, op_stream, &a, a.n, NULL, 0, "mt-job1M-stream");
+    ZSTD_CCtx_setParameter(c, ZSTD_c_jobSize, 1); ZSTD_CCtx_setParameter(c, ZSTD_c_overlapLog, 9); ZSTD_CCtx_setParameter(c, ZSTD_c_windowLog, 17);
+    st |= cctx_op_with_recovery(c, op_compress2, &n2, n2, NULL, 0, "mt-job512K-overlap9-multi-job");
+    ZSTD_CCtx_setParameter(c, ZSTD_c_jobSize, 4 << 20); ZSTD_CCtx_setParameter(c, ZSTD_c_windowLog, 21);
+    st |= cctx_op_with_recovery(c, op_compress2, &n, n, NULL, 0, "mt-job4M-w21");
     ZSTD_freeCCtx(c); return st;
 }
 static int sc_cctx_mt_resize(void)
@@ -398,6 +419,7 @@ static const scenario_t SC[] = {
     { "zdict_default", sc_zd_default, 1 }, { "zdict_cover", sc_zd_cover, 1 }, { "zdict_fastcover", sc_zd_fastcover, 1 }, { "zdict_opt_cover", sc_zd_optcover, 1 },
     { "zdict_opt_fastcover", sc_zd_optfastcover, 1 }, { "zdict_opt_cover_mt", sc_zd_optcover_mt, 1 }, { "zdict_opt_fastcover_mt", sc_zd_optfastcover_mt, 1 },
     { "zdict_legacy", sc_zd_legacy, 1 }, { "zdict_finalize", sc_zd_finalize, 1 }, { "default_ctx_mt", sc_default_ctx, 1 },
+    { "cctx_mt_sizes", sc_cctx_mt_sizes, 0 },
 };
 #define NSC ((int)(sizeof(SC) / sizeof(SC[0])))
 
@@ -474,8 +496,8 @@ int main(int argc, char** argv)
         for (int s = 0; s < NSC; s++) { v_case(s * 10000L); long n = run_one(s, 0, 0); printf("COUNT\t%d\t%s\t%ld\t%d\n", s, SC[s].name, n, SC[s].domain); }
         return v_finish();
     }
-    long const f2 = v_opt_long("fault2", 0);
-    for (long i = V.from; i < V.to; i++) {
+    long const f2 = v_opt_long("fault2", 0); g_abandonMode = (int)v_opt_long("abandon", 0);
+    for (long i = V.from; i < V.to; i++) { g_abandoned = 0;
         int const s = (int)(i / 10000); long const k = i % 10000;
         if (s >= NSC || k == 0) continue;
         v_case(i);
